@@ -527,10 +527,22 @@ func genC08(r *rand.Rand, tier string, idx int) *World {
 		o.maxNodes = 10
 	}
 	w := genHistory(r, tier, o)
+	hold := pick(r, "", "ru-paused", "ru-paused", "canary-unpause", "canary-unpause", "frozen", "paused-wait", "paused-wait")
+	if hold == "canary-unpause" || hold == "paused-wait" {
+		o.pCanary = 1
+		w = genHistory(subRng(uint64(idx)*7919+1, "c08canary"), tier, o)
+	}
 	w.Extra["c02prop"] = "C08"
 	w.Cfg.AnnotationEdits = true
 	w.Cfg.EndCanary = "validate"
-	w.Extra["hold"] = pick(r, "", "ru-paused", "ru-paused", "canary-unpause", "canary-unpause", "frozen")
+	w.Extra["hold"] = hold
+	if c := w.EDS[0].Strategy.Canary; c != nil && w.Extra["hold"] == "paused-wait" {
+		c.CanaryTimeout = ""
+		c.AutoPauseEnabled = bptr(true)
+		c.AutoPauseMaxRestarts = i32(1)
+		c.AutoFailEnabled = bptr(false)
+		c.NodeSelector = nil
+	}
 	if c := w.EDS[0].Strategy.Canary; c != nil && w.Extra["hold"] == "canary-unpause" {
 		mode := c.ValidationMode
 		if mode == "" {
@@ -562,6 +574,26 @@ func bodyC08(s *Sim) {
 	r := subRng(s.Seed, "c08hold")
 	bound := s.c02Bound()
 	s.W.Cfg.KubeletFaults, s.W.Cfg.NodeChurn = false, false
+	if h := s.W.Extra["hold"]; h == "canary-unpause" || h == "paused-wait" {
+		// make sure a canary is in progress
+		if e := s.Store.GetEDS(def.NS, def.Name); e != nil && e.Spec.Strategy.Canary != nil && e.Status.Canary == nil {
+			s.clearHolds(r)
+			s.userAnnotate(def.NS, def.Name, edsv1.ExtendedDaemonSetCanaryValidAnnotationKey, "-")
+			for i := 0; i < 3; i++ {
+				s.Round(r)
+			}
+			cur := letterOfTpl(&e.Spec.Template)
+			for _, l := range sortedKeys(def.Templates) {
+				if l != cur {
+					s.userSetTemplate(def.NS, def.Name, l)
+					break
+				}
+			}
+			for i := 0; i < 4; i++ {
+				s.Round(r)
+			}
+		}
+	}
 	switch s.W.Extra["hold"] {
 	case "ru-paused", "frozen":
 		frozen := s.W.Extra["hold"] == "frozen"
@@ -597,6 +629,61 @@ func bodyC08(s *Sim) {
 					s.Violate("C08", "paused-still-creates", "", "rolling-update-paused for %d rounds: eligible node %s still has no daemon pod", bound, n.Name)
 				}
 			}
+		}
+	case "paused-wait":
+		// a paused canary (annotation, CLI or its own Canary-Paused condition) is not promoted by time
+		e := s.Store.GetEDS(def.NS, def.Name)
+		if e == nil || e.Spec.Strategy.Canary == nil || e.Status.Canary == nil || e.Spec.Strategy.Canary.Duration == nil {
+			break
+		}
+		cr := s.Store.GetERS(def.NS, e.Status.Canary.ReplicaSet)
+		if cr == nil || ersCondTrue(&cr.Status, edsv1.ConditionTypeCanaryFailed) {
+			break
+		}
+		s.userAnnotate(def.NS, def.Name, edsv1.ExtendedDaemonSetCanaryValidAnnotationKey, "-")
+		s.userAnnotate(def.NS, def.Name, edsv1.ExtendedDaemonSetCanaryUnpausedAnnotationKey, "-")
+		how := pick(r, "annotation", "cli", "auto", "auto")
+		switch how {
+		case "annotation":
+			s.userAnnotate(def.NS, def.Name, edsv1.ExtendedDaemonSetCanaryPausedAnnotationKey, "true")
+		case "cli":
+			s.userAnnotate(def.NS, def.Name, edsv1.ExtendedDaemonSetCanaryPausedAnnotationKey, "-")
+			s.RunCLI("canary-pause", key)
+		case "auto":
+			s.userAnnotate(def.NS, def.Name, edsv1.ExtendedDaemonSetCanaryPausedAnnotationKey, "-")
+			s.Round(r)
+			letter := letterOfTpl(&cr.Spec.Template)
+			for _, p := range s.Store.Pods() {
+				if letterOfPod(p) == letter && isDaemonPod(p, def.NS, def.Name) && !terminating(p) {
+					s.kSettle(p)
+					for i := 0; i < 3; i++ {
+						if pp := s.Store.GetPod(p.Namespace, p.Name); pp != nil && len(pp.Status.ContainerStatuses) > 0 {
+							s.kRestart(pp, "Error")
+						}
+					}
+				}
+			}
+		}
+		s.Round(r)
+		s.Round(r)
+		e = s.Store.GetEDS(def.NS, def.Name)
+		if e == nil || e.Status.State != edsv1.ExtendedDaemonSetStatusStateCanaryPaused {
+			break // the pause did not take (e.g. no canary pod to restart)
+		}
+		s.Stats.NonVacuous["C08.paused-wait-"+how]++
+		active := e.Status.ActiveReplicaSet
+		d := e.Spec.Strategy.Canary.Duration.Duration
+		if nr := e.Spec.Strategy.Canary.NoRestartsDuration; nr != nil && nr.Duration > d {
+			d = nr.Duration
+		}
+		s.Advance(d + time.Minute)
+		for i := 0; i < 3; i++ {
+			s.step++
+			s.Round(r)
+		}
+		e = s.Store.GetEDS(def.NS, def.Name)
+		if e != nil && e.Status.ActiveReplicaSet != active {
+			s.Violate("C08", "paused-promoted", how, "canary paused (%s); after the duration elapsed the active replica set changed from %s to %s", how, active, e.Status.ActiveReplicaSet)
 		}
 	case "canary-unpause":
 		e := s.Store.GetEDS(def.NS, def.Name)
@@ -679,7 +766,7 @@ func bodyC08(s *Sim) {
 
 func init() {
 	register(&Profile{Name: "C08", Decide: []string{"C08"}, Quick: 1500, Thorough: 80000, Gen: genC08, Body: bodyC08,
-		NonVacuous: []string{"C08.paused-or-frozen-sync", "C08.paused-canary-sync", "C08.unpause", "C08.hold-ru-paused", "C08.hold-frozen"}, Chunk: 50,
+		NonVacuous: []string{"C08.paused-or-frozen-sync", "C08.paused-canary-sync", "C08.unpause", "C08.hold-ru-paused", "C08.hold-frozen", "C08.paused-wait-auto", "C08.paused-wait-cli", "C08.paused-wait-annotation"}, Chunk: 50,
 		Rule: "Rollout states reached by seeded history with every combination and toggling order of the rolling-update-paused, rollout-frozen, canary-paused and canary-unpaused annotations (user edits and kubectl-eds commands); per-sync monitors judge what a sync may create or delete while they are set; then one of: the rolling update is held paused (empty eligible nodes must still get a pod), held frozen, or a paused canary loses some of its pods and is unpaused (it must resume); finally all holds are lifted and the rollout must complete within the convergence bound. " + histRule})
 }
 
